@@ -108,8 +108,18 @@ fn explore_pair(run: &Run, start: &Node, cfg: &AlphaCfg, d2: usize, features: &s
                 let ro = apply_raw(&p.r, &a);
                 let replay = json!({"restart_point": start.replay_json(None), "continuation_from_restart": p.s.labels()[start.path_len()..].to_vec(), "next": a.json()});
                 match (so, ro) {
+                    (StepOut::Pruned, Err(c)) => {
+                        // both lineages fail (the engine reported the original's failure): a totality matter
+                        run.outcome(&format!("both-lineages-failed(reported under C09):{}", c));
+                    }
                     (_, Err(c)) => {
-                        run.outcome(&format!("restarted-lineage-panicked(reported under C09):{}", c));
+                        // the original lineage takes the step, the rebuilt one panics: they do not behave identically
+                        run.violation(
+                            "C08",
+                            format!("rebuilt-lineage-panics/{}/after={}", features, a.label().split(|c| c == '(' || c == '[').next().unwrap_or("")),
+                            format!("restart after [{}], continuation [{} ; {}]: the original lineage takes the step, the rebuilt one panics: {}", start.path_str(), p.s.labels()[start.path_len()..].join(" ; "), a.label(), c),
+                            replay,
+                        );
                     }
                     (StepOut::Next(sn), Ok(Some(rn))) => {
                         run.validated();
@@ -212,10 +222,26 @@ pub fn run(run: &Run) {
         let mut pc = crate::props::c01::pool_cfg();
         pc.seal_actions = vec![None];
         match advance_by_labels(&scratch, r, &pc, &["open", "mint(", "seal(None)", "open", "deposit[MEL/C", "seal(None)"]) {
-            Some(n) => match eng.step(&n, &Action::Jump(496)) {
-                StepOut::Next(j) => roots.push(("Testnet/user-pool-before-tip902".into(), j)),
-                _ => run.outcome("user-pool-root-unavailable"),
-            },
+            Some(n) => {
+                // reached by real empty blocks, not by re-labelling: re-labelling goes through from_block, the function under test
+                let mut cur = Some(n);
+                while let Some(c) = &cur {
+                    if c.model.height >= 496 {
+                        break;
+                    }
+                    cur = match eng.step(c, &Action::Open) {
+                        StepOut::Next(o) => match eng.step(&o, &Action::Seal(None)) {
+                            StepOut::Next(s) => Some(s),
+                            _ => None,
+                        },
+                        _ => None,
+                    };
+                }
+                match cur {
+                    Some(j) => roots.push(("Testnet/user-pool-before-tip902".into(), j)),
+                    None => run.outcome("user-pool-root-unavailable"),
+                }
+            }
             None => run.outcome("user-pool-root-unavailable"),
         }
     }
